@@ -5,6 +5,9 @@ from harness.checks import common
 from harness.drivers import sweep
 
 
+LEVEL = 'exploration'
+
+
 def run(chk):
     q = chk.quick
     chk.rule = (
@@ -19,6 +22,7 @@ def run(chk):
         'result against BoolFun!PreimageF / ImageF. distinct_nontrivial = '
         'distinct (order, relation, quantifier, qvars[, rename]) rows')
     chk.mc('MC_BoolFun', 'MC_BoolFun.cfg')
+    chk.mc('MC_Ops2', 'MC_Let2.cfg')     # the rename / quantify recursions used inside
     tasks = []
     tid = 13000000
     for o in (['a', 'b'], ['b', 'a']):
